@@ -54,8 +54,21 @@ def gen(rng, tier, k):
     via_file = sg in ("osu", "qua") and rng.random() < 0.15
     merge = name == "O2JToSM" and rng.random() < 0.4
     shift = rng.choice([None, None, 0, 1, 2]) if tg == "bms" and sg != "sm" else None
+    lenient = rng.random() < 0.5
+    if rng.random() < 0.25:
+        # holds that end where they start are holds all the same: a converter may not turn them into hits or drop them
+        for ch in spec["charts"]:
+            for h in ch["holds"]:
+                if rng.random() < 0.3:
+                    h[2] = 0.0
+    if rng.random() < 0.2:
+        # a tempo point repeating the value of the one before it (a bar-line reset) is a tempo point all the same
+        for ch in spec["charts"]:
+            for a, b in zip(ch["bpms"], ch["bpms"][1:]):
+                if rng.random() < 0.6:
+                    b[1] = a[1]
     return dict(cls=name + ("_merge" if merge else ""), converter=name, merge=merge, spec=spec, history=hist, via_file=via_file, shift=shift,
-                lenient=rng.random() < 0.5)
+                lenient=lenient)
 
 
 def setup(ctx):
